@@ -2104,8 +2104,20 @@ package go9p
 //@   requires clnt != nil && clnt.conn != nil && nolocks()
 //@   ensures  clnt.err != nil
 
+// The client's list of outstanding requests as a sequence: inl(c, r) = r is on c's list, lrank(r) = its position from
+// the head (the oldest request). Uninterpreted; constrained only by the monitor invariant assumed in recv.
+//@ rec inl(c int, r int) bool
+//@ rec lrank(r int) int
 //@ func (*Clnt).recv(clnt)
 //@   property C10 C09 C13 C06 C19
+// monitor invariant of the pending list, assumed whenever the client lock is acquired (Rpcnb appends at the tail under the
+// lock, recv unlinks under the lock; not re-proved at the unlocks): reqfirst is position 0, next goes to position + 1, and
+// positions identify list members
+//@   at lock(clnt.Lock) ensures (clnt.reqfirst != nil ==> inl(clnt, clnt.reqfirst) && lrank(clnt.reqfirst) == 0)
+//@   at lock(clnt.Lock) ensures forall q Req {inl(clnt, q)} :: inl(clnt, q) ==> q != nil && q.Tc != nil && lrank(q) >= 0 && (q.next != nil ==> inl(clnt, q.next) && lrank(q.next) == lrank(q) + 1)
+//@   at lock(clnt.Lock) ensures forall q Req, p Req {inl(clnt, q), inl(clnt, p)} :: inl(clnt, q) && inl(clnt, p) && lrank(q) == lrank(p) ==> q == p
+// with the pipelined Tag interface several outstanding requests share a tag: the reply goes to the oldest of them
+//@   at send(r.Done)#1 requires [C09 C08 oldest] inl(clnt, r) && forall q Req {inl(clnt, q)} :: inl(clnt, q) && lrank(q) < lrank(r) ==> q.Tc.Tag != fc.Tag
 //@   opt lockcheck
 //@   requires clnt != nil && clnt.conn != nil && nolocks() && clnts != nil && clnt.Msize >= 24 && clnt.Msize <= 268435455
 //@   ghost rd int = 0
@@ -2151,6 +2163,7 @@ package go9p
 //@     invariant forall k int :: 0 <= k && k < pos ==> buf[k] == instream(clnt)[rd - pos + k]
 //@     invariant dobj == obj(buf) && dend == off(buf) + fcsize
 //@     invariant !readfailed && nclose == 0
+//@     invariant r != nil ==> inl(clnt, r) && forall q Req {inl(clnt, q)} :: inl(clnt, q) && lrank(q) < lrank(r) ==> q.Tc.Tag != fc.Tag
 //@   loop 4
 //@     invariant clnt != nil && nolocks() && err != nil && clnts != nil
 
